@@ -32,3 +32,25 @@ def mkloc_blocks(blocks, strand, parent=None, force_compound=False):
 
 def seq_parent(genome, alphabet="NT_STRICT", pid="chr", seq_type="chromosome"):
     return Parent(id=pid, sequence=Sequence(genome, Alphabet[alphabet], id=pid, type=seq_type))
+
+
+# ------------------------------------------------------------------------------------------------
+# gene-level builders
+from inscripta.biocantor.gene.cds import CDSInterval  # noqa: E402
+from inscripta.biocantor.gene.cds_frame import CDSFrame  # noqa: E402
+from inscripta.biocantor.io.parser import seq_to_parent, seq_chunk_to_parent  # noqa: E402
+
+
+def chrom_parent(genome, name="chr1", alphabet="NT_EXTENDED_GAPPED"):
+    return seq_to_parent(genome, alphabet=Alphabet[alphabet], seq_id=name)
+
+
+def chunk_parent(genome, cs, ce, name="chr1", alphabet="NT_EXTENDED_GAPPED"):
+    return seq_chunk_to_parent(genome[cs:ce], name, cs, ce, alphabet=Alphabet[alphabet])
+
+
+def mkcds(spec, parent=None, **kw):
+    bl = spec["blocks"]
+    return CDSInterval(
+        [b[0] for b in bl], [b[1] for b in bl], STRAND[spec["strand"]], [CDSFrame(f) for f in spec["frames"]],
+        parent_or_seq_chunk_parent=parent, **kw)
